@@ -245,7 +245,7 @@ class Ctx:
         print(f"[{self.prop} {time.time()-self.t0:6.1f}s]", *a, flush=True)
 
     def obligation_broken(self, name, detail=""):
-        self.broken.append({"obligation": name, "detail": str(detail)[:1500]})
+        self.broken.append({"obligation": name, "detail": str(detail)[:6000]})
         self.log("OBLIGATION BROKEN:", name, str(detail)[:300])
 
     def violation(self, key, input, expected, observed, kind="failing-input"):
